@@ -550,8 +550,13 @@ class Engine:
         which = "projective"
         if h.kind in ("HPoly", "HSeg") and rng.random() < 0.4:
             which = "klein"
-        return {"op": "setter", "h": h.id, "which": which, "data": data,
-                "layout": rng.choice(["C", "F", "strided", "reversed"])}
+        op = {"op": "setter", "h": h.id, "which": which, "data": data,
+              "layout": rng.choice(["C", "F", "strided", "reversed"])}
+        if which == "projective" and list(np.array(data).shape) == list(h.data.shape) and not h.isint \
+                and rng.random() < 0.3:
+            # read - edit in place - write back, through the getter that hands out the object's own array
+            op["roundtrip"] = True
+        return op
 
     QUERIES = {
         "PPoly": ["projective_coords", "affine_coords", "get_edges", "get_vertices", "in_standard_chart",
@@ -899,6 +904,11 @@ class Engine:
                 kl = data[..., 1:] / data[..., :1]
                 arr = self._buffer(world, "t:%d" % world.steps_done, kl.tolist(), op["layout"], affine=True)
                 h.real.coords("klein", arr)
+            elif op.get("roundtrip") and data.shape == h.data.shape and not h.isint:
+                arr = h.real.projective_coords()
+                arr[...] = data
+                h.real.projective_coords(arr)
+                world.stats["probe.setter_roundtrip_through_own_array"] += 1
             else:
                 arr = self._buffer(world, "t:%d" % world.steps_done, op["data"], op["layout"])
                 h.real.projective_coords(arr)
